@@ -648,16 +648,20 @@ class TestRunGen:
         r = self.r
         out = []
         cur = {} if cur is None else cur
+        mine = {}                                  # what THIS step list itself has put in place so far
         for _ in range(r.randint(2, 6)):
             x = r.choice(hot)
             k = r.random()
             if k < 0.55:
                 v = r.choice(sorted(RES[x]["mut"]))
-                if v == 0 and cur.get(x, 0) != 0 and "restore" in RES[x] and single_scope and r.random() < 0.5:
+                # testing.restore_mock raises when nothing is mocked: only after a mock made by these very steps
+                # (an earlier test of the group may have been skipped, an earlier scope may have restored)
+                if v == 0 and mine.get(x, 0) != 0 and "restore" in RES[x] and r.random() < 0.5:
                     out.append(("res", x, 0, RES[x]["restore"]))
                 else:
                     out.append(("res", x, v))
                 cur[x] = v
+                mine[x] = v
                 self._c("helper:" + RES[x]["name"])
             elif k < 0.92:
                 out.append(("ar", x, cur.get(x, 0)))
